@@ -1,4 +1,6 @@
-use crate::{LinearModel, LpSolution, MILPValue, SolverError, solve_milp_lp_problem};
+use crate::{
+    Comparison, LinearModel, LpSolution, MILPValue, SolverError, solve_milp_lp_problem,
+};
 use indexmap::IndexMap;
 
 /// Solves any kind of linear programming problem with the built-in MILP solver.
@@ -46,6 +48,21 @@ use indexmap::IndexMap;
 /// ```
 pub fn auto_solver(lp: &LinearModel) -> Result<LpSolution<MILPValue>, SolverError> {
     if lp.domain().is_empty() {
+        // A variable-free model can still be contradictory: every row then reads
+        // `0 <comparison> rhs` and must hold for the model to have a solution.
+        let contradictory = lp.constraints().iter().any(|constraint| {
+            let rhs = constraint.rhs();
+            !match constraint.constraint_type() {
+                Comparison::LessOrEqual => 0.0 <= rhs,
+                Comparison::GreaterOrEqual => 0.0 >= rhs,
+                Comparison::Equal => 0.0 == rhs,
+                Comparison::Less => 0.0 < rhs,
+                Comparison::Greater => 0.0 > rhs,
+            }
+        });
+        if contradictory {
+            return Err(SolverError::Infeasible);
+        }
         // A variable-free model still carries a constant objective (the offset).
         return Ok(LpSolution::new(
             vec![],
